@@ -101,6 +101,20 @@ def hist_text(hist, mark=None):
     return ' ; '.join(out)
 
 
+def make_local_maps(xmldir):
+    """a copy of the shipped map directory (for the map_path parameter) in which the 834 5010 guide differs from the packaged one:
+    834 is no transaction set identifier there, so a document that is valid against the packaged maps is not against these"""
+    import shutil
+    dst = os.path.join(xmldir, 'localmaps')
+    shutil.copytree(os.path.join(vlib.REPO, 'pyx12', 'map'), dst)
+    fn = os.path.join(dst, '834.5010.X220.A1.xml')
+    txt = open(fn, encoding='utf-8').read()
+    i = txt.index('xid="ST01"')
+    j = txt.index('<code>834</code>', i)
+    open(fn, 'w', encoding='utf-8').write(txt[:j] + '<code>83X</code>' + txt[j + len('<code>834</code>'):])
+    return dst
+
+
 def make_xml_inputs(docs, xmldir, cwd):
     """the XML form of each document (input of the convert calls) comes from a fresh validate under seed 0"""
     jobs = [({'calls': calls_of([(d, 'validate', 'none')]), 'xmldir': xmldir, 'savexml': True}, 0) for d in docs]
@@ -390,6 +404,7 @@ def replay_file(path):
     try:
         xmldir = os.path.join(cwd, 'xml')
         os.makedirs(xmldir)
+        make_local_maps(xmldir)
         bad = 0
         if obj['kind'] == 'fresh':
             make_xml_inputs([obj['doc']], xmldir, cwd)
@@ -447,6 +462,7 @@ def run(tier, replay=None):
     try:
         xmldir = os.path.join(cwd, 'xml')
         os.makedirs(xmldir)
+        make_local_maps(xmldir)
         first = make_xml_inputs(DOCS, xmldir, cwd)
         # Fresh(doc, kind): one-call interpreters under every hash seed
         base_meta, jobs = [], []
